@@ -22,7 +22,7 @@ PROP_FILES = ["Property_C07.v"]
 MODEL_VERSION = "fixed"  # the Gallina version record that describes the current tree
 
 HEADER = (vlib.COQ_HEADER + "From Common Require Import Str Cases.\n"
-          "From Rpc Require Import Json JsonRpc CorrC07.\n")
+          "From Rpc Require Import Json Models JsonRpc Inspector CorrC07.\n")
 
 # ----------------------------------------------------------------------------
 # recording mounts
@@ -876,6 +876,204 @@ def handler_stage(chk, jsonrpc):
     chk.obligation("corr:handlers", "correspondence", ok)
 
 
+# ----------------------------------------------------------------------------
+# Inspector.describe (what core.describe returns) over generated classes and functions
+
+ARG_NAMES = ["self", "a", "b", "uri", "uris", "tl_track", "value", "cls", "query", "x1", "kwargs_", "args_"]
+DEFAULTS = ["None", "0", "1", "-5", "True", "False", "'x'", "''", "[]", "[1, 'a']", "{}", "1.5", "'é'"]
+MEMBER_NAMES = ["pub", "get_x", "set_x", "play", "_priv", "__dunder__", "attr", "lookup", "search", "Zed", "a1", "defer", "self"]
+
+
+def gen_function_source(rng, name, first=None):
+    n = rng.choice([0, 1, 1, 2, 3, 4])
+    pool = [a for a in ARG_NAMES if not (first and a in ("self", "cls"))]
+    args = list(rng.sample(pool, n))
+    if args and rng.random() < 0.5 and "self" in args:
+        args.remove("self")
+        args.insert(0, "self")
+    if first:
+        args.insert(0, first)
+    ndef = rng.randint(0, len(args))
+    parts = []
+    for i, a in enumerate(args):
+        parts.append(a if i < len(args) - ndef else f"{a}={rng.choice(DEFAULTS)}")
+    if rng.random() < 0.25:
+        parts.append("*rest")
+    if rng.random() < 0.25:
+        parts.append("**opts")
+    doc = rng.choice(["", '    """Doc of %s.\n\n    second line é\n    """\n' % name, '    "one line"\n'])
+    return f"def {name}({', '.join(parts)}):\n{doc}    return None\n"
+
+
+def gen_inspected(rng):
+    """-> dict mount -> class or function, built from generated source."""
+    objects = {}
+    for i in range(rng.randint(0, 4)):
+        mount = rng.choice(["core.x", "o", "core.playback", "a.b", "f", "core.get_version", "o.pub", "_p", "core"]) + (str(i) if rng.random() < 0.3 else "")
+        ns = {}
+        if rng.random() < 0.4:
+            exec(gen_function_source(rng, "fn"), ns)  # noqa: S102 - generated test input
+            objects[mount] = ns["fn"]
+            continue
+        body = []
+        for name in rng.sample(MEMBER_NAMES, rng.randint(0, 6)):
+            kind = rng.weighted([("method", 6), ("static", 1), ("classm", 1), ("prop", 1), ("attr", 2), ("nested", 1), ("lambda", 1)])
+            src = gen_function_source(rng, name, first="cls" if kind == "classm" else None)
+            ind = "".join("    " + line + "\n" for line in src.splitlines())
+            if kind == "method":
+                body.append(ind)
+            elif kind == "static":
+                body.append("    @staticmethod\n" + ind)
+            elif kind == "classm":
+                body.append("    @classmethod\n" + ind)
+            elif kind == "prop":
+                body.append(f"    @property\n    def {name}(self):\n        return 1\n")
+            elif kind == "attr":
+                body.append(f"    {name} = {rng.choice(DEFAULTS)}\n")
+            elif kind == "nested":
+                body.append(f"    class {name}:\n        def inner(self):\n            return 1\n")
+            else:
+                body.append(f"    {name} = lambda self, q=1: q\n")
+        exec("class K:\n" + ("".join(body) or "    pass\n"), ns)  # noqa: S102
+        objects[mount] = ns["K"]
+    if rng.random() < 0.05:
+        objects[""] = len
+    return objects
+
+
+def g_sig(fn):
+    import inspect
+
+    import pydantic_core
+
+    try:
+        spec = inspect.getfullargspec(fn)
+    except TypeError:  # builtins without a signature (only private ones occur: never described)
+        return "(mkSig [] [] None None None)"
+    defaults = [g_json(json.loads(pydantic_core.to_json(d))) for d in (spec.defaults or ())]
+    doc = inspect.getdoc(fn)
+    return (f"(mkSig {g_list([g_str(a) for a in spec.args])} {g_list(defaults)} {vlib.g_opt(spec.varargs, g_str)} "
+            f"{vlib.g_opt(spec.varkw, g_str)} {vlib.g_opt(doc, g_str)})")
+
+
+def g_itable(objects):
+    import inspect
+
+    items = []
+    for mount, obj in objects.items():
+        if inspect.isroutine(obj):
+            items.append(f"({g_str(mount)}, IRoutine {g_sig(obj)})")
+        else:
+            members = [f"({g_str(n)}, {'IMRoutine ' + g_sig(v) if inspect.isroutine(v) else 'IMOther'})"
+                       for n, v in inspect.getmembers(obj)]
+            items.append(f"({g_str(mount)}, IClass {g_list(members)})")
+    return g_list(items)
+
+
+def instance_of(obj):
+    import inspect
+
+    if inspect.isroutine(obj):
+        return obj
+    try:
+        return obj()
+    except TypeError:
+        return object.__new__(obj)  # the core controllers need arguments; methods are there without __init__
+
+
+def g_instances(objects):
+    """The wrapper table that goes with an inspector table: the functions, instances of the classes."""
+    import inspect
+
+    items = []
+    for mount, obj in objects.items():
+        inst = instance_of(obj)
+        attrs = []
+        for a in dir(inst):
+            try:
+                val = getattr(inst, a)
+            except Exception:  # noqa: BLE001 - a property of an uninitialised controller
+                continue
+            attrs.append(f"({g_str(a)}, {'ACallable' if callable(val) else 'APlain'})")
+        items.append(f"({g_str(mount)}, mkObj {vlib.g_bool(callable(inst))} {g_list(attrs)})")
+    return g_list(items)
+
+
+def inspector_stage(chk, jsonrpc):
+    import inspect
+
+    rng = vlib.Rng(chk.seed, "C07-inspector")
+    tables = []
+    try:
+        from mopidy import core
+
+        tables.append({
+            "core.get_uri_schemes": core.Core.get_uri_schemes, "core.get_version": core.Core.get_version,
+            "core.history": core.HistoryController, "core.library": core.LibraryController, "core.mixer": core.MixerController,
+            "core.playback": core.PlaybackController, "core.playlists": core.PlaylistsController,
+            "core.tracklist": core.TracklistController})
+        chk.dist("inspector:real_core_classes")
+    except Exception as exc:  # noqa: BLE001
+        chk.notes.append(f"inspector: core classes not importable here: {exc!r}")
+    tables.append({"o": Rec, "f": behave, "n": Plain})
+    for _ in range(150 if chk.tier == "quick" else 2500):
+        tables.append(gen_inspected(rng))
+    rows, rows2 = [], []
+    for objects in tables:
+        case = {"mounts": {m: (getattr(o, "__name__", "?"), "routine" if inspect.isroutine(o) else "class") for m, o in objects.items()}}
+        chk.count(1, nontrivial_key="inspector:" + json.dumps(case, sort_keys=True) if objects else None)
+        try:
+            insp = jsonrpc.Inspector(objects=objects)
+        except AttributeError:
+            rows.append((case, f"({g_itable(objects)}, None)"))
+            chk.dist("inspector:empty_mount_refused")
+            continue
+        w = jsonrpc.Wrapper(objects={"core.describe": insp.describe})
+        try:
+            resp = json.loads(w.handle_json(b'{"jsonrpc":"2.0","id":1,"method":"core.describe"}'))
+            described = resp["result"]
+        except Exception as exc:  # noqa: BLE001
+            chk.monitor_failure("no_exception", {"exc": type(exc).__name__, "cause": "core.describe"}, f"core.describe failed: {exc!r}", case)
+            continue
+        chk.dist(f"inspector:methods:{min(len(described), 5)}{'+' if len(described) > 5 else ''}")
+        # monitors: only public routines of the mounted classes / the mounted functions are described,
+        # "self" is never a parameter, and every described name is callable through a Wrapper on instances
+        instances = {m: instance_of(o) for m, o in objects.items()}
+        wi = jsonrpc.Wrapper(objects=instances)
+        for name, desc in described.items():
+            ok = name in objects and inspect.isroutine(objects[name])
+            if not ok and "." in name:
+                mount, attr = name.rsplit(".", 1)
+                for m, o in objects.items():
+                    if name == f"{m}.{attr}" or (name.startswith(m + ".") and name[len(m) + 1:] == attr):
+                        ok = ok or (not inspect.isroutine(o) and not attr.startswith("_") and inspect.isroutine(getattr(o, attr, None)))
+            if not ok:
+                chk.monitor_failure("only_public", {"entry": "described"}, f"core.describe lists {name!r}, not a public routine of a mount", case)
+            if any(p.get("name") == "self" for p in desc["params"]):
+                chk.monitor_failure("only_public", {"entry": "described_self"}, f"{name!r} is described with a self parameter", case)
+            try:
+                wi._get_method(name)
+            except jsonrpc.JsonRpcError:
+                chk.monitor_failure("classification", {"class": "described_not_callable"},
+                                    f"{name!r} is described but not callable through the wrapper", case)
+        rows.append((case, f"({g_itable(objects)}, Some {g_json(described)})"))
+        rows2.append((case, f"({g_itable(objects)}, {g_instances(objects)})"))
+    for name, case_type, rr, ev in (("inspector", "itable * option json", rows, "describe_case_ok"),
+                                    ("inspector_resolves", "itable * mounts", rows2, "describe_resolves_ok")):
+        shards = [rr[i: i + 100] for i in range(0, len(rr), 100)]
+        results = rc.run_shards(vlib, AREA, HEADER, case_type, [[r[1] for r in sh] for sh in shards], [ev], jobs=12)
+        ok = True
+        for shard, (lists, log_text) in zip(shards, results):
+            if lists is None:
+                ok = False
+                chk.corr_failure(name, {"shard": "coq evaluation failed"}, log_text[-1500:])
+                continue
+            for i in lists[0]:
+                ok = False
+                chk.corr_failure(name, shard[i][0])
+        chk.obligation(f"corr:{name}", "correspondence", ok)
+
+
 def search_hook(jsonrpc):
     """Directed search after a tie break: mutate the disagreeing request and look for an
     input on which a monitor (the property predicate) fails."""
@@ -941,3 +1139,4 @@ def run(chk):
     chk.search_hook = search_hook(jsonrpc)
     wrapper_stage(chk, jsonrpc)
     handler_stage(chk, jsonrpc)
+    inspector_stage(chk, jsonrpc)
